@@ -12,7 +12,9 @@ Inductive case :=
 | JobCase (wc deadline : N) (steps : list (op * obs))
 (* a real operator: runners, barriers of checkpoint a from [first] before the second deploy (observed results),
    then barriers of checkpoint b from every runner in order [second] (observed results) *)
-| SlotCase (runners : list N) (a : N) (first : list N) (r1 : list N) (b : N) (second : list N) (r2 : list N).
+| SlotCase (runners : list N) (a : N) (first : list N) (r1 : list N)
+           (late : list N) (rl : list N)      (* stale barriers of a that arrive AFTER the second deploy (observed results) *)
+           (b : N) (second : list N) (r2 : list N).
 
 Fixpoint list_eqb {A} (eqb : A -> A -> bool) (a b : list A) : bool :=
   match a, b with
@@ -205,22 +207,28 @@ Fixpoint spec_steps (w : nat) (dl : N) (s : sp) (l : list (op * obs)) : list N :
   end.
 
 (* ---------------------------------------------------------------- the operator's checkpoint slot *)
-Definition slot_check (runners : list N) (a : N) (first r1 : list N) (b : N) (second r2 : list N) : list N :=
+Definition slot_check (runners : list N) (a : N) (first r1 late rl : list N) (b : N) (second r2 : list N) : list N :=
   let o0 := oper_deploy current (MkOper [] None) runners in
   let '(o1, m1) := oper_barriers o0 first a in
   let o2 := oper_deploy current o1 runners in
-  let '(_, m2) := oper_barriers o2 second b in
-  (if nl_eqb m1 r1 then [] else [7]) ++
+  let '(o3, ml) := oper_barriers o2 late a in
+  let '(_, m2) := oper_barriers o3 second b in
+  (if nl_eqb m1 r1 && nl_eqb ml rl then [] else [7]) ++
   (if nl_eqb m2 r2 then [] else [8]) ++
-  (* spec: after the second deploy the barriers of the new checkpoint are all accepted and the last one completes it *)
-  (if forallb (fun r => negb (r =? 1)) r2 then [] else [101]) ++
-  (if subset runners second then (match rev r2 with 2 :: _ => [] | _ => [102] end) else []).
+  (* spec: after the second deploy the barriers of the new checkpoint are all accepted and the last one completes it.
+     With stale barriers of the old checkpoint arriving after the redeployment this fails today (known finding, code 103). *)
+  let bad := negb (forallb (fun r => negb (r =? 1) && negb (r =? 3)) r2) in
+  let incomplete := subset runners second && match rev r2 with 2 :: _ => false | _ => true end in
+  match late with
+  | [] => (if bad then [101] else []) ++ (if incomplete then [102] else [])
+  | _ => if bad || incomplete then [103] else []
+  end.
 
 Definition check_case (c : case) : list N :=
   match c with
   | JobCase w dl steps =>
       diff_steps (MkCfg (N.to_nat w) dl current) init steps ++ spec_steps (N.to_nat w) dl sp0 steps
-  | SlotCase runners a first r1 b second r2 => slot_check runners a first r1 b second r2
+  | SlotCase runners a first r1 late rl b second r2 => slot_check runners a first r1 late rl b second r2
   end.
 
 Definition run (cases : list (N * case)) : list (N * N) :=
